@@ -32,6 +32,9 @@ structure ResubmitPost (A : Alg D) (m m' : M D) (r0 r : Option Cid) : Prop where
   lc : ∀ j, ((m'.ctxs j).last || (m'.ctxs j).complete) = ((m.ctxs j).last || (m.ctxs j).complete)
   /-- a context is handed back only if it was PROCESSING -/
   ret_proc : ∀ c, r = some c → (m.ctxs c).processing = true
+  /-- no job is lost: a PROCESSING context stays PROCESSING unless it is the one handed back -/
+  proc_keep : ∀ j, (m.ctxs j).processing = true → (m'.ctxs j).processing = true ∨ r = some j
+  slots_len : m'.slots.length = m.slots.length
 
 theorem resubmit_post (A : Alg D) (hB : 0 < A.B) :
     ∀ (fuel : Nat) (m : M D) (r : Option Cid) (res : M D × Option Cid),
@@ -42,7 +45,7 @@ theorem resubmit_post (A : Alg D) (hB : 0 < A.B) :
   have triv : ∀ (m : M D), MgrOk m → (∀ j, Shape A.B (m.ctxs j)) → ResubmitPost A m m none none :=
     fun m hok hs => ⟨fun _ => rfl, hs, hok, fun _ h => (by cases h), fun _ => rfl, fun _ => rfl,
       fun h j hj => (h j hj).elim id (fun e => by cases e), fun _ h => h, fun _ => rfl,
-      fun _ h => (by cases h)⟩
+      fun _ h => (by cases h), fun _ h => Or.inl h, rfl⟩
   intro fuel
   induction fuel with
   | zero =>
@@ -84,7 +87,7 @@ theorem resubmit_post (A : Alg D) (hB : 0 < A.B) :
         have i := ih _ _ res hrec hok2 hs2 hl2
         have hsu := mgrSubmit_sameUser A.f (setCtx m c x') c bs
         refine ⟨fun j => ?_, i.shape, i.ok, i.ret, fun j => ?_, fun j => ?_, fun hin => ?_, fun j hj => ?_, fun j => ?_,
-          fun c' hc' => ?_⟩
+          fun c' hc' => ?_, fun j hj => ?_, ?_⟩
         · rw [i.settle_eq j, mgrSubmit_settle A _ c bs hok1.free_ne]
           by_cases hj : j = c
           · subst hj; simp only [if_true]; rw [hc1]; exact hsett
@@ -120,6 +123,12 @@ theorem resubmit_post (A : Alg D) (hB : 0 < A.B) :
           by_cases hjc : c' = c
           · subst hjc; exact hpc
           · simpa [setCtx, hjc] using this
+        · apply i.proc_keep j
+          rw [(hsu j).2.2.2.2.2.1]
+          by_cases hjc : j = c
+          · subst hjc; rw [hc1]; exact hx'p
+          · simpa [setCtx, hjc] using hj
+        · rw [i.slots_len, mgrSubmit_slots_len]; rfl
       -- helper: handing the context back after a context-only update
       have back : ∀ (x' : Ctx D), x'.lane = none → x'.processing = false → x'.last = false →
           x'.incoming = [] →
@@ -129,7 +138,8 @@ theorem resubmit_post (A : Alg D) (hB : 0 < A.B) :
           ResubmitPost A m (setCtx m c x') (some c) (some c) := by
         intro x' hx'l hx'p hx'last hx'inc hx's hx'e hx't hx'c hsett
         refine ⟨fun j => ?_, fun j => ?_, setCtx_ok m c x' hok hlc hx'l, fun c' hc' => ?_, fun j => ?_,
-          fun j => ?_, fun hin j hj => ?_, fun j hj => ?_, fun j => ?_, fun c' hc' => (by cases hc'; exact hpc)⟩
+          fun j => ?_, fun hin j hj => ?_, fun j hj => ?_, fun j => ?_, fun c' hc' => (by cases hc'; exact hpc),
+          fun j hj => ?_, rfl⟩
         · by_cases hj : j = c
           · subst hj; simpa [setCtx] using hsett
           · simp [setCtx, hj]
@@ -153,6 +163,9 @@ theorem resubmit_post (A : Alg D) (hB : 0 < A.B) :
         · by_cases hjc : j = c
           · subst hjc; simpa [setCtx] using hx'c
           · simp [setCtx, hjc]
+        · by_cases hjc : j = c
+          · right; rw [hjc]
+          · left; simpa [setCtx, hjc] using hj
       simp only [resubmit] at hres
       by_cases hcomp : (m.ctxs c).complete = true
       · simp only [hcomp, if_true, Option.some.injEq] at hres
